@@ -94,6 +94,7 @@ type world struct {
 	// external control side (nil in pmc-only runs): called when a completion is taken
 	onComplete    func(g int, m sim.Msg)
 	ctrlByHarness bool
+	bias          uint64
 }
 
 func pmcName(g int) string     { return fmt.Sprintf("GPU[%d].PMC", g) }
@@ -120,8 +121,23 @@ func (w *world) emit(e string, f ab.Rec) {
 	w.rec.Emit(e, f)
 }
 
-func newWorld(rec *ab.Recorder, n int) *world {
-	w := &world{rec: rec, eng: ab.NewEngine(), n: n, count: map[string]int{}, want: map[string]int{}, abs: map[string]int{},
+func newWorld(rec *ab.Recorder, n int) *world { return newWorldOn(rec, ab.NewEngine(), n) }
+
+// la is the address as logged (TLC integers are 32-bit: system-level runs log addresses minus 4 GiB).
+func (w *world) la(a uint64) uint64 { return a - w.bias }
+
+// noteReq registers a migration request that the control side is about to hand to PMC g.
+func (w *world) noteReq(g int, m sim.Msg) {
+	q, ok := m.(*pmcpkg.PageMigrationReqToPMC)
+	if !ok {
+		return
+	}
+	w.reqs = append(w.reqs, &reqInfo{no: len(w.reqs) + 1, g: g, owner: w.gpuOfPort(q.PMCPortOfRemoteGPU),
+		from: q.ToReadFromPhysicalAddress, to: q.ToWriteToPhysicalAddress, size: q.PageSize, realID: q.ID, srcF: -1, dstF: -1})
+}
+
+func newWorldOn(rec *ab.Recorder, eng *ab.Engine, n int) *world {
+	w := &world{rec: rec, eng: eng, n: n, count: map[string]int{}, want: map[string]int{}, abs: map[string]int{},
 		stats: map[string]int{}, ctrlByHarness: true}
 	rec.ResetIDs()
 	w.pmcs = make([]*pmcpkg.PageMigrationController, n+1)
@@ -156,8 +172,8 @@ func (w *world) hook(g int) {
 		case *pmcpkg.PageMigrationReqToPMC:
 			switch ctx.Pos {
 			case sim.HookPosPortMsgRecvd:
-				w.emit("EnvMig", ab.Rec{"g": g, "id": w.id(m.ID), "from": m.ToReadFromPhysicalAddress,
-					"to": m.ToWriteToPhysicalAddress, "size": m.PageSize, "owner": w.gpuOfPort(m.PMCPortOfRemoteGPU),
+				w.emit("EnvMig", ab.Rec{"g": g, "id": w.id(m.ID), "from": w.la(m.ToReadFromPhysicalAddress),
+					"to": w.la(m.ToWriteToPhysicalAddress), "size": m.PageSize, "owner": w.gpuOfPort(m.PMCPortOfRemoteGPU),
 					"src": string(m.Src)})
 			case sim.HookPosPortMsgRetrieveIncoming:
 				for _, r := range w.reqs {
@@ -186,7 +202,7 @@ func (w *world) hook(g int) {
 					w.abs[m.ID] = r.no*100 + int((m.ToReadFromPhyAddress-r.from)/unit)
 				}
 				w.emit("SendPull", ab.Rec{"g": g, "id": w.id(m.ID), "dst": w.gpuOfPort(m.Dst),
-					"addr": m.ToReadFromPhyAddress, "n": m.DataTransferSize})
+					"addr": w.la(m.ToReadFromPhyAddress), "n": m.DataTransferSize})
 				return
 			}
 		case *pmcpkg.DataPullRsp:
@@ -216,7 +232,7 @@ func (w *world) hook(g int) {
 		case *mem.ReadReq:
 			switch ctx.Pos {
 			case sim.HookPosPortMsgSend:
-				w.emit("SendRead", ab.Rec{"g": g, "id": w.id(m.ID), "addr": m.Address, "n": m.AccessByteSize, "dst": string(m.Dst)})
+				w.emit("SendRead", ab.Rec{"g": g, "id": w.id(m.ID), "addr": w.la(m.Address), "n": m.AccessByteSize, "dst": string(m.Dst)})
 			case sim.HookPosPortMsgRetrieveOutgoing:
 				w.emit("MemTake", ab.Rec{"g": g, "id": w.id(m.ID)})
 			}
@@ -230,7 +246,7 @@ func (w *world) hook(g int) {
 				if m.DirtyMask != nil {
 					mask = 1
 				}
-				w.emit("SendWrite", ab.Rec{"g": g, "id": w.id(m.ID), "addr": m.Address, "data": ab.Bytes(m.Data),
+				w.emit("SendWrite", ab.Rec{"g": g, "id": w.id(m.ID), "addr": w.la(m.Address), "data": ab.Bytes(m.Data),
 					"masked": mask, "dst": string(m.Dst)})
 			case sim.HookPosPortMsgRetrieveOutgoing:
 				w.emit("MemTake", ab.Rec{"g": g, "id": w.id(m.ID)})
@@ -273,7 +289,7 @@ func (w *world) frameBytes(f frame) []int {
 func (w *world) emitReset(extra ab.Rec) {
 	frs := []ab.Rec{}
 	for _, f := range w.frs {
-		frs = append(frs, ab.Rec{"g": f.g, "base": f.base, "bytes": w.frameBytes(f)})
+		frs = append(frs, ab.Rec{"g": f.g, "base": w.la(f.base), "bytes": w.frameBytes(f)})
 	}
 	r := ab.Rec{"gpus": w.n, "frames": frs}
 	for k, v := range extra {
@@ -559,7 +575,7 @@ func (w *world) finish() {
 
 func (w *world) dumpStorage() {
 	for _, f := range w.frs {
-		w.rec.Emit("Storage", ab.Rec{"g": f.g, "base": f.base, "bytes": w.frameBytes(f)})
+		w.rec.Emit("Storage", ab.Rec{"g": f.g, "base": w.la(f.base), "bytes": w.frameBytes(f)})
 	}
 	// cells outside every declared frame must never have been written
 	for g := 1; g <= w.n; g++ {
@@ -577,7 +593,7 @@ func (w *world) dumpStorage() {
 		}
 		if len(extra) > 0 {
 			sort.Slice(extra, func(i, j int) bool { return extra[i] < extra[j] })
-			w.rec.Emit("StrayWrite", ab.Rec{"g": g, "addr": extra[0], "cells": len(extra)})
+			w.rec.Emit("StrayWrite", ab.Rec{"g": g, "addr": w.la(extra[0]), "cells": len(extra)})
 		}
 	}
 }
@@ -688,6 +704,10 @@ func main() {
 	drv := flag.Int("drv", 0, "number of driver-level runs (real driver.Driver in the loop)")
 	drvOut := flag.String("drvout", "", "driver-level trace output")
 	sys := flag.Bool("sys", false, "driver-level runs use real command processors and PMCs")
+	sysPMCOut := flag.String("syspmcout", "", "PMC-level trace of the system-level runs")
+	drvGPUs := flag.Int("drvgpus", 2, "GPUs in driver-level runs")
+	drvLog2 := flag.Uint64("drvlog2", 12, "log2 page size in driver-level runs")
+	drvKind := flag.String("drvkind", "normal", "normal: environment keeps clear of the known driver defects; known: scenarios exhibiting them; wild: no restriction")
 	flag.Parse()
 
 	f, err := os.Create(*out)
@@ -766,7 +786,7 @@ func main() {
 	stats["events"] = rec.Seq
 
 	if *drv > 0 {
-		ds := runDriverLevel(*drvOut, *drv, *seed, *sys)
+		ds := runDriverLevel(*drvOut, *sysPMCOut, *drv, *seed, *sys, *drvGPUs, *drvLog2, *drvKind)
 		for k, v := range ds {
 			stats["drv_"+k] = v
 		}
